@@ -150,6 +150,7 @@ def apply_mutation(vm, mutation):
         ns = {}
         exec(code, fn.__globals__, ns)
         fn.__code__ = ns[node.name].__code__
+        vm.fcache[fn.__code__] = node      # the interpreter keeps using the mutated AST for the swapped code object
     finally:
         node.decorator_list = saved_decorators
 
@@ -206,6 +207,7 @@ def _run_job(pid, job, opts, res):
     is_ok = getattr(mod, 'is_ok', lambda verdict: isinstance(verdict, str) and verdict.startswith('ok'))
     seen_viol = {}
     path_no = [0]
+    job_pub = {k: v for k, v in job.items() if k != 'mutation'}
 
     def on_path(vm_, rec):
         path_no[0] += 1
@@ -263,7 +265,7 @@ def _run_job(pid, job, opts, res):
             if is_violation(val):
                 seen_viol[vkey] = seen_viol.get(vkey, 0) + 1
                 key = finding_key(job, val, inputs, named) if finding_key else f'{job.get("family", job["name"])}|{val}'
-                res['violations'].append(dict(key=key, verdict=val, job=job, inputs=jsonable_inputs(inputs), named=named,
+                res['violations'].append(dict(key=key, verdict=val, job=job_pub, inputs=jsonable_inputs(inputs), named=named,
                                               shown=sample['inputs']))
                 return
             res['inconclusive'].append('harness returned neither ok nor VIOLATION: ' + short(val))
@@ -275,7 +277,7 @@ def _run_job(pid, job, opts, res):
             verdict = on_bound(job, nat) if on_bound else None
             if verdict is not None and is_violation(verdict):
                 key = finding_key(job, verdict, inputs, named) if finding_key else f'{job.get("family", job["name"])}|{verdict}'
-                res['violations'].append(dict(key=key, verdict=verdict, job=job, inputs=jsonable_inputs(inputs), named=named,
+                res['violations'].append(dict(key=key, verdict=verdict, job=job_pub, inputs=jsonable_inputs(inputs), named=named,
                                               shown=sample['inputs']))
             else:
                 res['inconclusive'].append(f'bound exceeded ({val}); native: {nat}; inputs: {sample["inputs"]}')
